@@ -19,5 +19,10 @@ def blockhashOp : Handler
     | .panic _ => "panic"
   | _, _ => "bad-op"
 
-def ops : List (String × Handler) := [("txid", txidOp), ("blockhash", blockhashOp)]
+/-- self-test of the executable hash used by the driver -/
+def shaOp : Handler
+  | _, [h] => withHex h fun bs => s!"ok {Hex.enc (Sha256.sha256 bs)} {Hex.enc (Sha256.sha256d bs)}"
+  | _, _ => "bad-op"
+
+def ops : List (String × Handler) := [("txid", txidOp), ("blockhash", blockhashOp), ("sha", shaOp)]
 end EV.Driver.C02
